@@ -299,8 +299,9 @@ def ipca(B, U_a, l_a, n_a, m_a=None, f=1.0, eps=1e-10):
 
     # compute new eigenvalues
     l = s_tilde**2 / (n - 1)
-    # keep only positive eigenvalues within tolerance
-    l = l[l > eps]
+    # keep only positive eigenvalues within tolerance (relative to the
+    # largest one, exactly as the batch eigenvalue_decomposition does)
+    l = l[l > eps * np.max(l)]
 
     U = Vt_tilde.dot(np.vstack((U_a, B_tilde)))[: len(l), :]
 
